@@ -458,7 +458,6 @@ func negateStrict(op token.Token) token.Token {
 	return token.GTR
 }
 
-
 // ruleFormatFlags: string.format hands each directive to fmt, whose Formatter callback rebuilds the
 // directive from fmt.State in defaultFormat. A flag the rebuild does not probe is silently dropped
 // ("% d" loses its blank). The probed characters are a counted range, the runes of a constant string,
